@@ -18,7 +18,9 @@ def run(ctx):
     ctx.rule = ("histories of add / refresh / stop / remove-all-for-address (reboot) / connection loss / re-add for several keys and addresses in BOTH "
                 "TimedStore instances (found services, server subscriptions), TTL {1,2,3,infinite}, refreshes anywhere before, exactly at and one tick "
                 "around the deadline (a touch exactly at a pending deadline is accepted either way), both tie orders, runs of 6-12 virtual seconds plus "
-                "infinite-TTL entries observed past 0xFFFFFF s; judged by check_C09 (per-key expiry history versus the specification)")
+                "infinite-TTL entries observed past 0xFFFFFF s; judged by check_C09 (per-key expiry history versus the specification); every scenario in which an "
+                "event falls on the tick of a TTL deadline is run a second time with that event delivered a quarter tick EARLY (the expiry then runs while "
+                "loop.time() is below its deadline, as asyncio allows within its clock resolution) and must give the outcome of the exact run")
     ctx.assumptions = ["the loop is never late (virtual time): real-time lateness is outside the model"]
     n = 200 if quick else 8000
     scs = stackprop.corpus_scenarios("C09")
@@ -39,6 +41,37 @@ def run(ctx):
         sc["end"] = (0xFFFFFF + 10) * scen.T
         scs.append(sc)
     stackprop.run_scenarios(ctx, scs, 3009, CODES, what="TTL store")
+    early_iteration(ctx, scs[: 150 if quick else 3000])
+
+
+def early_iteration(ctx, scs):
+    """asyncio runs a timer up to one clock resolution before its deadline when something else wakes the loop then.  Every
+    scenario in which a datagram / API call falls on the tick of a TTL deadline is run a second time with that event
+    delivered a quarter tick early (harness/vloop.py early_at): the expiry then runs while loop.time() is still below
+    its deadline.  Trace and final state must be what they are with exact delivery; the early trace is judged by check_C09."""
+    from .. import sexp, sim
+    n = 0
+    for sc in scs:
+        if sc["end"] > 64 * scen.T:
+            continue
+        tr, comp, (fin, ghost) = sim.run_impl(sc)
+        if not comp:
+            continue
+        deadlines = {g[0] + g[5] * scen.T for g in ghost if g[1] == 3 and g[5] != 0xFFFFFF}
+        ticks = {t for t, ev in sc["events"]} & deadlines
+        if not ticks:
+            continue
+        n += 1
+        tr2, comp2, (fin2, _) = sim.run_impl(sc, early_at=ticks)
+        if sim.norm(tr2) != sim.norm(tr) or sim.norm(fin2) != sim.norm(fin) or comp2 != comp:
+            v = ctx.model.call(3009, [sim.scenario_sexp(sc), stackprop.trace_sexp(tr2)])
+            codes = sexp.loads(v) if v.startswith("(") else [98]
+            ctx.violation("TTL store: the outcome depends on a datagram arriving a fraction of the clock resolution before a TTL deadline (the expiry runs in that "
+                          "iteration, loop.time() still below the deadline)" + ("; " + "; ".join(CODES.get(c, f"checker code {c}") for c in codes) if codes else ""),
+                          dict(scenario=stackprop.describe(sc), early_ticks=sorted(ticks), trace_exact=sexp.dumps(sim.norm(tr))[:6000],
+                               trace_early=sexp.dumps(sim.norm(tr2))[:6000], checker_codes=codes))
+        ctx.case(("early", sexp.dumps(stackprop.describe(sc)["events"])[:400]) if False else ("early", n), nontrivial=True, kind="early-iteration")
+    ctx.notes["early_iteration_scenarios"] = n
 
 
 def replay(ctx, rp):
